@@ -417,16 +417,24 @@ def _ver_chunk(vs):
     return n, bad
 
 
-def version_sweep(run, versions, procs):
-    """TLC has established Dec(o) = DecodingError for every one of these strings (invariant VersionRefused on grid
-    "ver"); the real decoder must refuse each of them with its decoding error."""
+def version_sweep_start(versions, procs):
+    """TLC establishes Dec(o) = DecodingError for every one of these strings (invariant VersionRefused on grid
+    "ver"); the real decoder must refuse each of them with its decoding error.  Worker processes are forked here,
+    before any thread exists; version_sweep_finish collects."""
     import multiprocessing as mp
-    chk = run.chk
     chunks = [versions[i::procs * 4] for i in range(procs * 4)]
     chunks = [c for c in chunks if c]
-    ctx = mp.get_context("fork")
-    with ctx.Pool(procs) as pool:
-        results = pool.map(_ver_chunk, chunks)
+    pool = mp.get_context("fork").Pool(procs)
+    return pool, pool.map_async(_ver_chunk, chunks)
+
+
+def version_sweep_finish(run, handle):
+    chk = run.chk
+    pool, pending = handle
+    try:
+        results = pending.get(timeout=3600)
+    finally:
+        pool.terminate()
     total = 0
     for n, bad in results:
         total += n
@@ -434,7 +442,7 @@ def version_sweep(run, versions, procs):
             mon = "ForbiddenRefused" if why == "accepted" else "OnlyDecodingError"
             run.report(mon, {"dir": "decode", "part": "header", "case": "version-sweep", "field": why, "shape": "n/a", "mt": None},
                        {"octets": bytes(o).hex(), "expected": ERR_DEC, "got": why}, {"kind": "dec", "o": o})
-    chk.case(("ver-sweep", len(versions)), nontrivial=True, n=total)
+    chk.case(("ver-sweep", total), nontrivial=True, n=total)
     chk.monitor("ForbiddenRefused", total)
     chk.monitor("OnlyDecodingError", total)
     chk.extra["version_sweep_strings_on_impl"] = total
@@ -700,8 +708,10 @@ def main(tier, seed):
                                "octet strings <= 3 (thorough), not proved for all inputs")
 
     ver_res = {}
-    ver_thread = None
+    ver_thread = sweep = None
     if th:
+        procs = max(2, min(8, int(os.environ.get("VERIF_TLC_WORKERS", "16")) // 2))
+        sweep = version_sweep_start([v for v in range(256) if v != 1], procs)
         # 16.7 M strings <<v, a, b>>, v # 1: TLC checks Dec = DecodingError on each (runs beside the Python work)
         def _ver():
             ver_res["res"] = tlc.run_tlc("MC_NPCI", cfg_text=grid_cfg(["ver"], tier), timeout=2400, name="MC_NPCI/ver")
@@ -739,8 +749,7 @@ def main(tier, seed):
                 break
 
     if th:
-        procs = max(2, min(8, int(os.environ.get("VERIF_TLC_WORKERS", "16")) // 2))
-        version_sweep(run, [v for v in range(256) if v != 1], procs)
+        version_sweep_finish(run, sweep)
         ver_thread.join()
         if "res" not in ver_res:
             tlc.machinery_failure("version grid did not return")
